@@ -392,7 +392,8 @@ pub fn owned(prop: &str, v: &Violation) -> bool {
         }
         "C06" => matches!(v.faulted, F_DROP_PANIC | F_CLONE_PANIC | F_NEXT_PANIC | F_LEN_LIE | F_MEM_FAIL),
         "C07" => v.faulted == 5,
-        "C08" => v.class == SharedStorage || (strict && matches!(v.op, Op::CloneVec | Op::CloneEmpty | Op::CloneEmptyIn) && (content || ledger || v.class == CloneCount)),
+        // (a back end on which an empty vector cannot even be built is one clone_empty_in fails on)
+        "C08" => v.class == SharedStorage || (strict && v.op == Op::New && v.detail.contains("constructing an empty vector")) || (strict && matches!(v.op, Op::CloneVec | Op::CloneEmpty | Op::CloneEmptyIn) && (content || ledger || v.class == CloneCount)),
         "C09" => strict && (v.class == CloneCount || (matches!(v.op, Op::Lazy) && (content || ledger))),
         "C10" => strict && (matches!(v.class, CapPost | LenGtCap) || (v.op == Op::Cap && content)),
         "C11" => v.class == HeapUseOnStack || (v.on_stack && (content || (strict && ledger) || v.class == RelaxedInvalid || v.class == LenGtCap)),
